@@ -155,7 +155,21 @@ def flow_through_transcription(pr, rockit, spec, M):
     ocp.solver("ipopt", {"ipopt.print_level": 0, "print_time": False, "ipopt.sb": "yes", "ipopt.tol": 1e-13,
                          "ipopt.constr_viol_tol": 1e-13, "ipopt.max_iter": 200})
     ocp.set_initial(x, ca.DM(pr["x0"]))
-    sol = ocp.solve()
+    try:
+        sol = ocp.solve()
+    except RuntimeError as e_:
+        # IPOPT may stop short of tol=1e-13 (e.g. Search_Direction_Becomes_Too_Small) at a point that solves the
+        # square system to rounding accuracy: accept it when the constraint violation is below 1e-10
+        if "Solver failed" not in str(e_):
+            raise
+        opti = ocp._method.opti
+        g = np.array(opti.debug.value(opti.g)).reshape(-1)
+        lb = np.array(opti.debug.value(opti.lbg)).reshape(-1)
+        ub = np.array(opti.debug.value(opti.ubg)).reshape(-1)
+        viol = float(np.max(np.maximum(np.maximum(lb - g, g - ub), 0.0))) if g.size else 0.0
+        if not viol <= 1e-10:
+            raise
+        sol = ocp.non_converged_solution
     xs = sol.sample(x, grid="control")[1]
     xf = np.array(xs[-1]).reshape(-1)
     return xf, float(sol.value(I))
@@ -179,7 +193,7 @@ def worker(args):
                     try:
                         xf, I = flow_through_transcription(pr, rockit, spec, M)
                     except RuntimeError as e_:
-                        if M <= 2 and "Solver failed" in str(e_):
+                        if M <= 2 and "Solver failed" in str(e_):   # (not accepted by the violation test either)
                             # the equations of an implicit scheme need not have a solution on a very
                             # coarse step: the case says nothing about convergence
                             out["skipped"] = "no solution of the scheme's equations at M=%d" % M
